@@ -62,6 +62,10 @@ def run(ctx):
             toks = lang.tree_tokens(tree, ctx.rng)
             route = ctx.rng.choice(['parse', 'parse', 'parse', 'enforce', 'load'])
             cases.append(pc.record_text(toks, lang.render(toks, ctx.rng, wide=True), route, 'c01'))
+    # the same parenthesised group several times in one rule
+    for i in range(250 if q else 4000):
+        toks = lang.repeated_group_tokens(ctx.rng)
+        cases.append(pc.record_text(toks, lang.render(toks, ctx.rng, wide=True), ctx.rng.choice(['parse', 'parse', 'enforce', 'load']), 'c01'))
     n_text = len(cases)
     # list-of-lists shapes
     atoms = [lang.LEAF0 + 1, lang.LEAF0 + 2, lang.TRUE_TOK, lang.FALSE_TOK]
